@@ -1,6 +1,17 @@
-(* Line-protocol driver around the extracted C13 model (coq/Compact/Model.v): the guards of Database::compact.
+(* Line-protocol driver around the extracted C13 model (coq/Compact/Model.v, Guard.v): the guards of Database::compact.
    input  line: <hist> guard p=<persistent savepoints> e=<ephemeral savepoints> r=<read transactions>
-   output line: <hist> none | <hist> err persistent|ephemeral|inprogress *)
+   output line: <hist> none | <hist> err persistent|ephemeral|inprogress
+   input  line: <hist> conc p=<committed persistent savepoints> e=<ephemeral savepoints> r=<read transactions>
+                            w=<0|1 a write transaction is open> wn=<persistent savepoints it created> : <labels>
+                labels (the schedule the harness forced, step machine of Guard.v): C esp psp commit abort dropesp dropread
+   output line: <hist> none | <hist> err ... | <hist> pending | <hist> invalid-schedule
+   input  line: <hist> pass <page>/<ancestor>.<ancestor>... ... ; <old>><new> ...
+                one OBSERVED pass of compact(): the page paths of the data tables before the pass (positions in
+                order-0 units, ancestors root first) and the relocation that was observed
+   input  line: <hist> packed <allocated order-0 positions up to the highest page>     (a pass without progress)
+   output line: <hist> packed true|false            the extracted packedb (Pass.v, theorem c13_pass_no_progress)
+   output line: <hist> passok|passbad lt|eq|other      the extracted checker pass_okP (Pass.v), and how the measure of
+                the relocated paths compares with the measure before (lexltb (msr ..) (msr ..)) *)
 open C13_model
 
 let rec pos_of_bits = function
@@ -33,6 +44,57 @@ let () =
          | Some EPersistent -> print_endline (h ^ " err persistent")
          | Some EEphemeral -> print_endline (h ^ " err ephemeral")
          | Some EInProgress -> print_endline (h ^ " err inprogress"))
+      | h :: "conc" :: p :: e :: r :: w :: wn :: ":" :: labels ->
+        let lab = function
+          | "C" -> LC | "esp" -> LEsp | "psp" -> LPsp | "commit" -> LCommit | "abort" -> LAbort
+          | "dropesp" -> LDropEsp | "dropread" -> LDropRead | x -> failwith ("label " ^ x) in
+        let ls = List.map lab (List.filter (fun x -> x <> "") labels) in
+        let s0 = ginit (n_of_int (kv p)) (n_of_int (kv e)) (n_of_int (kv r)) (kv w = 1) (n_of_int (kv wn)) in
+        (match grun v_code ls s0 with
+         | None -> print_endline (h ^ " invalid-schedule")
+         | Some s ->
+           (match answer s with
+            | ARan -> print_endline (h ^ " none")
+            | ARefused EPersistent -> print_endline (h ^ " err persistent")
+            | ARefused EEphemeral -> print_endline (h ^ " err ephemeral")
+            | ARefused EInProgress -> print_endline (h ^ " err inprogress")
+            | APending -> print_endline (h ^ " pending")))
+      | h :: "pass" :: rest ->
+        let rec split acc = function
+          | ";" :: r -> (List.rev acc, r)
+          | x :: r -> split (x :: acc) r
+          | [] -> (List.rev acc, []) in
+        let (es, ms) = split [] (List.filter (fun x -> x <> "") rest) in
+        let entry s = match String.index_opt s '/' with
+          | Some i ->
+            let p = int_of_string (String.sub s 0 i) in
+            let a = String.sub s (i + 1) (String.length s - i - 1) in
+            let anc = if a = "" then [] else List.map (fun x -> n_of_int (int_of_string x)) (String.split_on_char '.' a) in
+            (n_of_int p, anc)
+          | None -> failwith "entry" in
+        let move s = match String.index_opt s '>' with
+          | Some i -> (n_of_int (int_of_string (String.sub s 0 i)), n_of_int (int_of_string (String.sub s (i + 1) (String.length s - i - 1))))
+          | None -> failwith "move" in
+        let ps = List.map entry es in
+        let m = List.map move ms in
+        let ok = pass_okP m ps in
+        let before = msr ps in
+        let after = msr (ren_paths m ps) in
+        let cmp = if lexltb after before then "lt" else if after = before then "eq" else "other" in
+        print_endline (h ^ (if ok then " passok " else " passbad ") ^ cmp)
+      | h :: "packed" :: units ->
+        (* a pass that reported no progress, highest page of order 0: the allocated order-0 positions up to it *)
+        let l = List.map (fun x -> n_of_int (int_of_string x)) (List.filter (fun x -> x <> "") units) in
+        print_endline (h ^ " packed " ^ (if packedb l then "true" else "false"))
+      | h :: "packedblocks" :: hi :: blocks ->
+        (* same with a highest page of order > 0 (not in the model: buddy blocks): no free block of at least its
+           order starts below it.  Hand-written comparison, not extracted. *)
+        let blk s = match String.index_opt s '^' with
+          | Some i -> (int_of_string (String.sub s 0 i), int_of_string (String.sub s (i + 1) (String.length s - i - 1)))
+          | None -> failwith "block" in
+        let (at, order) = blk hi in
+        let ok = List.for_all (fun b -> let (s, o) = blk b in o < order || s > at) (List.filter (fun x -> x <> "") blocks) in
+        print_endline (h ^ " packedblocks " ^ (if ok then "true" else "false"))
       | _ -> print_endline "BADLINE"
     done
   with End_of_file -> ()
